@@ -32,6 +32,9 @@ pub fn record_fields(bytes: &[u8], size: usize, raw: bool) -> Option<Vec<(&'stat
     if raw {
         let modified = rd(pos)?;
         out.push(("modified_len", pos, modified));
+        for k in 0..modified as usize {
+            out.push(("modified_index", pos + 8 + k * 8, rd(pos + 8 + k * 8)?));
+        }
         pos += 8 + modified as usize * (8 + size);
         let holes = rd(pos)?;
         out.push(("prev_holes_len", pos, holes));
@@ -100,6 +103,16 @@ pub fn fault_phase<V: VecLike>(ex: &mut VecExec<V>, rng: &mut Rng, exhaustive_tr
         // describe the truncation (they are redundant, so any change is detectable) - a count
         // changed by one elsewhere yields another well-formed record that nothing can tell apart
         let linked = matches!(*name, "prev_stored_len" | "stored_len" | "truncated");
+        if *name == "modified_index" {
+            // a slot index at / beyond the length the rollback restores is out of range
+            let restored_len = fields.iter().find(|f| f.0 == "prev_stored_len").map(|f| f.2).unwrap_or(0) + fields.iter().find(|f| f.0 == "prev_pushed_len").map(|f| f.2).unwrap_or(0);
+            for bad in [restored_len, restored_len + 1, 1u64 << 40, u64::MAX] {
+                let mut b = orig.clone();
+                b[*off..*off + 8].copy_from_slice(&bad.to_le_bytes());
+                faults.push(("field:modified_index".into(), format!("modified slot index {val} -> {bad} (restored length {restored_len})"), Some(b)));
+            }
+            continue;
+        }
         for bad in [val.wrapping_add(1), 1u64 << 32, 1u64 << 40, 1u64 << 63, u64::MAX] {
             if bad == *val || (bad == val.wrapping_add(1) && !linked) {
                 continue;
